@@ -148,7 +148,7 @@ def lean_sources_for(module_file):
     return sorted(seen)
 
 GEN_TRANSLATORS = {'TupleImpls': 'translate_tuples', 'LockSites': 'translate_locks', 'Mirrors': 'translate_mirrors',
-                   'Counter': 'translate_counter', 'Control': 'translate_control', 'Builder': 'translate_control', 'Typestate': 'translate_typestate'}
+                   'Counter': 'translate_counter', 'Control': 'translate_control', 'Builder': 'translate_control', 'Typestate': 'translate_typestate', 'ScanSkel': 'translate_scan'}
 
 def lean_obligations(prop, expected, report, thorough=False):
     """Build Unimock.Props.<prop>, audit axioms of every expected theorem, grep forbidden constructs.
